@@ -127,7 +127,8 @@ func startWatchdog() {
 					path := replayPathFor("C19")
 					b := fmt.Sprintf(`{"property":"C19","failure":"decoding did not finish within %d s","case":{"prop":"C19","hex":"%s"}}`, c19HangSeconds, hex.EncodeToString(*p))
 					_ = os.WriteFile(path, []byte(b), 0o644)
-					fmt.Printf("property C19 violated: decoding hangs\nVERIF-REPLAY %s\n", path)
+					// not yet a verdict: the driver re-runs this input alone and only a second hang is a violation
+					fmt.Printf("VERIF-HANG %s\n", path)
 					os.Exit(3)
 				}
 			}
@@ -285,7 +286,7 @@ func loadCorpus() [][]byte {
 // ---------------------------------------------------------------- structured mutation
 
 type FMut struct {
-	K string `json:"k"` // trunc, flip, set, splice, ins, dup, head, len
+	K string `json:"k"` // trunc, flip, set, splice, ins, dup, head, len, idx, tag
 	P int    `json:"p"`
 	V int    `json:"v,omitempty"`
 	N int    `json:"n,omitempty"`
@@ -325,11 +326,33 @@ func (c *FCase) bytes() []byte {
 		case "head": // edit a byte in the first 40 bytes with a CBOR-significant value
 			if len(b) > 0 {
 				vals := []byte{0x00, 0x17, 0x18, 0x19, 0x1a, 0x1b, 0x1f, 0x40, 0x58, 0x59, 0x5b, 0x5f, 0x80, 0x81, 0x82, 0x83, 0x98, 0x99, 0x9a, 0x9b, 0x9f, 0xa0, 0xbf, 0xd8, 0xf6, 0xff, 246, 247, 248, 249, 250, 251, 252, 253, 254, 255}
-				q := m.P % 40
+				q := m.P % 120
+				if m.P%3 != 0 {
+					q = m.P % 40
+				}
 				if q >= len(b) {
 					q = len(b) - 1
 				}
 				b[q] = vals[m.V%len(vals)]
+			}
+		case "idx", "tag": // k-th one-byte-argument uint head (0x18 nn) / tag head (0xd8 nn): rewrite nn
+			marker := byte(0x18)
+			if m.K == "tag" {
+				marker = 0xd8
+			}
+			var at []int
+			for i := 0; i+1 < len(b); i++ {
+				if b[i] == marker {
+					at = append(at, i+1)
+				}
+			}
+			if len(at) > 0 {
+				q := at[m.P%len(at)]
+				if m.K == "tag" {
+					b[q] = byte(246 + m.V%10)
+				} else {
+					b[q] = []byte{0, 1, 2, 3, 23, 24, 0x7f, 0x80, 0xfe, 0xff}[m.V%10]
+				}
 			}
 		case "len": // set a 2-byte big-endian field to an extreme
 			if len(b) >= 2 {
@@ -373,7 +396,7 @@ var c19Stats struct {
 }
 
 func init() {
-	kinds := []string{"trunc", "flip", "flip", "set", "set", "splice", "ins", "dup", "head", "head", "len"}
+	kinds := []string{"trunc", "flip", "flip", "set", "set", "splice", "ins", "dup", "head", "head", "len", "idx", "idx", "tag"}
 	register(&PropDef{
 		ID:  "C19",
 		New: func() any { return &FCase{} },
@@ -384,7 +407,7 @@ func init() {
 			for i := 0; i < n; i++ {
 				m := FMut{K: rapid.SampledFrom(kinds).Draw(t, "k"), P: rapid.IntRange(0, 1<<16).Draw(t, "p")}
 				switch m.K {
-				case "flip", "set", "head", "len", "ins":
+				case "flip", "set", "head", "len", "ins", "idx", "tag":
 					m.V = rapid.IntRange(0, 255).Draw(t, "v")
 				}
 				switch m.K {
